@@ -640,6 +640,20 @@ func runTopology(c *Ctx, ti int, r *mon.RNG) {
 				g.foreign = 1 + r.Intn(3)
 			}
 		}
+		// forced, so that no seed goes without them: in every fifth topology the first leaf is a "foreign encoder" certificate
+		// (unknown non-critical extension in front of a critical known one: the key usage below is written critical); in
+		// another fifth its EKU extension lists only an OID nobody knows
+		switch {
+		case i == 0 && ti%5 == 1:
+			g.extraExt, g.foreign, g.keyUsage = true, 1, gx509.KeyUsageDigitalSignature
+			rep.Count("leaves_forced_to_foreign_extension_order", 1)
+		case i == 0 && ti%5 == 4:
+			g.eku, g.ekuUnknown = nil, true
+			rep.Count("leaves_forced_to_unknown_only_eku", 1)
+		}
+		if g.foreign > 0 && g.keyUsage == 0 {
+			g.keyUsage = gx509.KeyUsageDigitalSignature // a critical extension the parser knows, behind the unknown one after rotation
+		}
 		if bad(10) {
 			g.critExt = true
 		}
